@@ -6,21 +6,59 @@ caller and the container stays sound with either its previous contents or the
 completed change - never a partial one; later operations behave normally and
 no stored key or value is leaked or released twice."
 
-A key class K counts its rich comparisons and raises on the n-th one.  For
-every container shape x operation x n (until the operation needs fewer than n
-comparisons) x exception class the call is made on a fresh container and the
-clauses are evaluated one by one:
-  reaches    the exception object that K raised is what the caller catches
-  sound      H.walk + _check() (trees) / strictly increasing keys (leaves)
+A key class K counts its rich comparisons and raises according to a FAULT:
+  any       the n-th comparison of any kind raises, once
+  lt / eq / gt / le-ge-ne
+            from the n-th call of that method on, every call of that method
+            raises, while the other methods keep answering (keys whose __eq__
+            raises while __lt__ answers normally, ...)
+  all       from the n-th comparison on, every comparison raises
+for every n = 1.. until the operation needs fewer than n such calls.  K is
+armed only while the operation under test runs: it is disarmed before the
+outcome of the call is even looked at, and every observation below runs
+disarmed.
+
+Two scenario classes, each on a fresh container per case:
+  general   build recipes x operations of the kinds lookup, insert, replace,
+            delete, range search, set algebra, conflict merge
+  delete    trees of 2 and 3 levels (node sizes chosen so that leaves with
+            exactly ONE key occur as first / middle / last / only child, under
+            a first / middle / last interior node) x EVERY key x every deletion
+            entry point (del, pop, pop with default, popitem; remove, discard,
+            pop(), in-place -=)
+and the clauses, evaluated one by one:
+  reaches    the exception object that K raised is what the caller catches:
+             swallowed-<E> (the call returned normally), pending-<E> (the call
+             returned a result and left the exception set: it surfaces later,
+             or as SystemError "returned a result with an exception set"),
+             replaced-<E> (the caller saw something else)
+  duplicate-key  a key is stored twice (found by descent or by iteration)
+  sound      H.walk + _check() (trees) / strictly increasing keys (leaves), then
+             BTrees.check.check() (btrees-check).  Damage is keyed by what it is:
+             `damage`: the failing comparison ran after the container had changed
+             size, the structure reachable by descent is sound and the only fault
+             is that the leaf chain still passes through emptied, already removed
+             leaves (the signature of the recorded finding: a separator comparison
+             made after the child's deletion skips the unlinking);
+             `damage-chain`: any other disagreement between chain and descent;
+             `damage-structure`: the structure reachable by descent itself is
+             broken after a late fault (empty leaf / node left in place, order,
+             separators, sizes); `damage-early`: damage although nothing had been
+             stored or removed yet when the comparison failed
   contents   == previous, or == the reference result of the completed call
              (a call that stores/removes several keys may stop between keys)
-  followup   lookups of all keys, insert + delete of a fresh key, len
+  observe    len, bool, minKey/maxKey, iteration by keys/values/items/iter
+  followup   lookups of all keys, insert + delete of a fresh key, len; then
+             re-insertion of what the call removed (contents == previous) and a
+             workload that removes every key one at a time with _check() after
+             each step
   refcount   (C) sys.getrefcount change of every key/value == change of the
              number of slots holding it (H.slot_counts); reported as arg-leak
              when the object is a probe that never was stored
   leak-after-destroy  after dropping the containers the counts are those from
              before anything was stored and weak references to all keys/values
              are dead (both implementations, after a gc.collect())
+  crash / hang   the interpreter died / did not come back (forked child)
 """
 import argparse
 import gc
@@ -35,33 +73,74 @@ class Boom(Exception):
     pass
 
 
-class Ctl:
-    count = 0
-    fail_at = None          # 1-based index of the comparison that raises
-    exc = Boom
-    raised = None           # the exception object K raised
+class _Ctl:
+    """State of the fault injector.  An instance with slots: arming and
+    disarming are plain slot stores (nothing that could trip over an exception
+    a broken call left pending)."""
+    __slots__ = ("armed", "count", "fail_at", "sticky", "methods", "exc", "raised", "probe", "at_raise")
+
+    def __init__(self):
+        self.armed, self.count, self.fail_at, self.sticky, self.methods = False, 0, None, False, None
+        self.exc, self.raised, self.probe, self.at_raise = Boom, [], None, None
+
+
+C = _Ctl()
+
+# name, methods that are counted and fail (None: all six), sticky (from the n-th call on)
+FAULTS = (("any", None, False), ("lt", ("lt",), True), ("eq", ("eq",), True), ("gt", ("gt",), True),
+          ("le-ge-ne", ("le", "ge", "ne"), True), ("all", None, True))
+
+
+def _tick(m):
+    ms = C.methods
+    if ms is not None and m not in ms:
+        return
+    C.count += 1
+    n = C.count
+    if n == C.fail_at or (C.sticky and n > C.fail_at):
+        if not C.raised and C.probe is not None:
+            C.armed = False             # the probe looks at the container: disarmed
+            try:
+                C.at_raise = C.probe()
+            except BaseException:
+                C.at_raise = None
+            C.armed = True
+        e = C.exc("__%s__ call #%d" % (m, n))
+        C.raised.append(e)
+        raise e
 
 
 class K:
-    """Totally ordered key; every rich comparison ticks the fault counter."""
+    """Totally ordered key; while armed, every rich comparison ticks the fault counter."""
     __slots__ = ("v", "__weakref__")
 
     def __init__(self, v):
         self.v = v
 
-    def _tick(self):
-        if Ctl.fail_at is not None:
-            Ctl.count += 1
-            if Ctl.count == Ctl.fail_at:
-                Ctl.raised = Ctl.exc("comparison #%d" % Ctl.count)
-                raise Ctl.raised
+    def __lt__(self, o):
+        if C.armed: _tick("lt")
+        return self.v < o.v
 
-    def __lt__(self, o): self._tick(); return self.v < o.v
-    def __le__(self, o): self._tick(); return self.v <= o.v
-    def __gt__(self, o): self._tick(); return self.v > o.v
-    def __ge__(self, o): self._tick(); return self.v >= o.v
-    def __eq__(self, o): self._tick(); return self.v == o.v
-    def __ne__(self, o): self._tick(); return self.v != o.v
+    def __le__(self, o):
+        if C.armed: _tick("le")
+        return self.v <= o.v
+
+    def __gt__(self, o):
+        if C.armed: _tick("gt")
+        return self.v > o.v
+
+    def __ge__(self, o):
+        if C.armed: _tick("ge")
+        return self.v >= o.v
+
+    def __eq__(self, o):
+        if C.armed: _tick("eq")
+        return self.v == o.v
+
+    def __ne__(self, o):
+        if C.armed: _tick("ne")
+        return self.v != o.v
+
     def __hash__(self): return hash(self.v)
     def __repr__(self): return "K(%r)" % (self.v,)
 
@@ -80,6 +159,35 @@ def lab(x):
     return x.v if isinstance(x, (K, V)) else x
 
 
+_EMPTY = iter(())
+
+
+def armed_call(fn):
+    """fn() with the injector armed -> ('exc', e, None) | ('ret', result, stray).
+    The injector is disarmed before anything else happens.  `stray` is an
+    exception the call left set although it returned normally: builtin next()
+    asks PyErr_Occurred() when the iterator is exhausted, which is where such an
+    exception surfaces."""
+    C.armed = True
+    try:
+        r = fn()
+        C.armed = False
+    except BaseException as e:
+        C.armed = False
+        return ("exc", e, None)
+    # (no call outside a try block from here on: any call made while an exception is pending turns it into a SystemError)
+    try:
+        next(_EMPTY, None)
+        stray = None
+    except BaseException as e:
+        stray = e
+    try:
+        next(_EMPTY, None)      # (a second one would be an exception raised while the first was handled)
+    except BaseException as e:
+        stray = stray or e
+    return ("ret", r, stray)
+
+
 # A shape is a build recipe: +v stores key v (values are even), -v-1 removes it.
 def recipes(quick):
     asc = lambda n: [2 * i for i in range(n)]
@@ -92,12 +200,80 @@ def recipes(quick):
     return r
 
 
+def leaf_profile(t):
+    """-> (height, [(leaf size, position of the leaf among its parent's children, position of that parent in ITS
+    parent), ...]) with positions in only / first / middle / last; by __getstate__, no comparisons."""
+    out = []
+
+    def pos(i, n):
+        return "only" if n == 1 else "first" if i == 0 else "last" if i == n - 1 else "middle"
+
+    def rec(node, ppos):
+        st = node.__getstate__()
+        if st is None:
+            return 0
+        if len(st) == 1:
+            out.append((len(st[0][0][0]), "only", ppos))
+            return 1
+        kids = st[0][0::2]
+        h = 0
+        for i, kid in enumerate(kids):
+            p = pos(i, len(kids))
+            if type(kid) is type(t):
+                h = max(h, rec(kid, p))
+            else:
+                out.append((len(kid.__getstate__()[0]), p, ppos))
+                h = max(h, 1)
+        return h + 1
+    h = rec(t, "root")
+    return h, out
+
+
+def delete_recipes(cls, is_set, quick):
+    """Recipes for the delete scenario at the node sizes set on cls: ascending / descending fills thinned by up to
+    two deletions, one recipe per distinct shape; of these a greedy cover of the features (height, a ONE-key leaf /
+    a fuller leaf, its position in its parent, the parent's position) and then the remaining shapes up to a cap."""
+    asc = lambda n: [2 * i for i in range(n)]
+    fills = [("asc%d" % n, asc(n)) for n in range(3, 10)] + [("desc%d" % n, asc(n)[::-1]) for n in range(4, 13)]
+    cand, seen = [], set()
+    for name, fill in fills:
+        ks = sorted(fill)
+        thin = [()] + [(k,) for k in ks] + [(a, b) for i, a in enumerate(ks) for b in ks[i + 1:i + 3]]
+        for dels in thin:
+            t = cls()
+            for k in fill:
+                t.add(k) if is_set else t.__setitem__(k, 0)
+            for k in dels:
+                t.remove(k) if is_set else t.__delitem__(k)
+            sig = repr(H.shape(t, is_set))
+            h, prof = leaf_profile(t)
+            if sig in seen or h not in (2, 3):
+                continue
+            seen.add(sig)
+            feats = set((h, min(sz, 2), p, pp) for sz, p, pp in prof)
+            cand.append((name + "".join("-%d" % k for k in dels), fill + [-(k + 1) for k in dels], feats, len(ks) - len(dels)))
+    chosen, covered = [], set()
+    while True:         # greedy cover, smallest trees first among equals
+        best = max(cand, key=lambda c: (len(c[2] - covered), -c[3]), default=None)
+        if best is None or not (best[2] - covered):
+            break
+        chosen.append(best)
+        covered |= best[2]
+        cand.remove(best)
+    cap = 10 if quick else 60
+    for c in cand:
+        if len(chosen) >= cap:
+            break
+        chosen.append(c)
+    return [(n, r) for n, r, _, _ in chosen], len(covered)
+
+
 class World:
     """Fresh objects of one case: stored keys sk, operand keys uk, probes pk, values."""
 
     def __init__(self, cls, is_set, recipe, obj_values):
         self.is_set = is_set
-        universe = list(range(-2, 18 if H.tier() == "quick" else 30)) + [51, 71, 73, 99, 1001]
+        universe = list(range(-2, 26 if H.tier() == "quick" else 30)) + [51, 71, 73, 99, 1001]
         self.sk = {v: K(v) for v in universe}
         self.uk = {v: K(v) for v in universe}
         self.pk = {v: K(v) for v in universe}
@@ -167,6 +343,18 @@ def operations(is_set, is_tree, d):
     return ops
 
 
+def delete_operations(is_set, d):
+    """Every deletion entry point, for EVERY key present."""
+    ops = []
+    for k in sorted(d):
+        if is_set:
+            ops += [("delete", "remove", k), ("delete", "discard", k), ("delete", "isub", (k,))]
+        else:
+            ops += [("delete", "delitem", k), ("delete", "pop", k), ("delete", "pop", k, 2)]
+    ops.append(("delete", "spop") if is_set else ("delete", "popitem"))
+    return ops
+
+
 def prepare(w, op, cls):
     """No faults yet: build the second operand / the three states of a merge."""
     name = op[1]
@@ -195,6 +383,8 @@ def run_op(w, op, mod, py):
     if name == "setdefault": return t.setdefault(P[a[0]], val(a[1]))
     if name == "insert": return t.insert(P[a[0]], val(a[1]))
     if name == "pop": return t.pop(P[a[0]], *[val(i) for i in a[1:]])
+    if name == "popitem": return t.popitem()
+    if name == "spop": return t.pop()
     if name == "update": return t.update([(P[k], val(i)) for k, i in a[0]])
     if name == "remove": return t.remove(P[a[0]])
     if name == "delitem": del t[P[a[0]]]; return None
@@ -220,8 +410,9 @@ def run_op(w, op, mod, py):
     raise ValueError(name)
 
 
-SET_MUTATORS = ("add", "remove", "discard", "supdate", "ior", "iand", "isub", "ixor")
-MAP_MUTATORS = ("setitem", "setdefault", "insert", "pop", "update", "delitem")
+SET_MUTATORS = ("add", "remove", "discard", "spop", "supdate", "ior", "iand", "isub", "ixor")
+MAP_MUTATORS = ("setitem", "setdefault", "insert", "pop", "popitem", "update", "delitem")
+MULTI = ("update", "supdate", "ior", "iand", "isub", "ixor")
 
 
 def completed(op, before, is_set):
@@ -234,160 +425,371 @@ def completed(op, before, is_set):
         H.apply_ref(ref, (name,) + tuple(a))
     elif not is_set and name == "update":
         H.apply_ref(ref, (name, tuple((k, ("V", i)) for k, i in a[0])))
+    elif not is_set and name == "popitem":
+        H.apply_ref(ref, (name,))
     elif not is_set and name in MAP_MUTATORS:
         H.apply_ref(ref, (name, a[0]) + tuple(("V", i) for i in a[1:]))
     return ref.d
 
 
-def followup(w, got, is_set, is_tree):
-    """No faults: every stored key is found, a fresh largest key can be stored
-    and removed again, the contents are as before.  -> error text or None."""
-    try:
-        for x in got:
-            k = x if is_set else x[0]
-            if w.pk[k] not in w.t or (not is_set and lab(w.t[w.pk[k]]) != x[1]):
-                return "stored key %r not found" % (k,)
-        nk = w.pk[1001]
-        if nk in w.t:
-            return "absent key found"
-        w.t.add(nk) if is_set else w.t.__setitem__(nk, w.vals[2])
-        if len(w.t) != len(got) + 1 or w.contents()[-1] != (1001 if is_set else (1001, lab(w.vals[2]))):
-            return "after storing a fresh largest key: contents %r" % (w.contents(),)
-        w.t.remove(nk) if is_set else w.t.__delitem__(nk)
-        if w.contents() != got:
-            return "after insert+delete contents %r, expected %r" % (w.contents(), got)
-        if is_tree:
-            w.t._check()
-    except Exception as e:
-        return "%s: %s" % (type(e).__name__, e)
+def census(t, is_set):
+    """Labels of all keys reachable by descent over __getstate__, in descent order; no comparisons."""
+    out = []
+
+    def leaf(st):
+        data = st[0]
+        out.extend(lab(k) for k in (data if is_set else data[0::2]))
+
+    def rec(node):
+        st = node.__getstate__()
+        if st is None:
+            return
+        if len(st) == 1:
+            leaf(st[0][0])
+            return
+        for kid in st[0][0::2]:
+            if type(kid) is type(t):
+                rec(kid)
+            else:
+                leaf(kid.__getstate__())
+    rec(t)
+    return out
+
+
+def stale_chain_only(t):
+    """The signature of the recorded finding (known_findings.json, C14: the separator comparison made after the
+    child's deletion): the structure reachable by descent is sound, and the only fault is that the leaf chain
+    still passes through emptied leaves that are no longer children of any node."""
+    desc = []
+
+    def rec(node):
+        st = node.__getstate__()
+        if st is None:
+            return
+        if len(st) == 1:
+            desc.append(node._firstbucket)
+            return
+        for kid in st[0][0::2]:
+            rec(kid) if type(kid) is type(t) else desc.append(kid)
+    rec(t)
+    chain, b = [], t._firstbucket
+    while b is not None and len(chain) < 10000:
+        chain.append(b)
+        b = b._next
+    ids = set(id(x) for x in desc)
+    extra = [x for x in chain if id(x) not in ids]
+    rest = [id(x) for x in chain if id(x) in ids]
+    return bool(extra) and rest == [id(x) for x in desc] and all(len(x) == 0 for x in extra)
+
+
+def dups(labels):
+    seen, d = set(), []
+    for x in labels:
+        if x in seen and x not in d:
+            d.append(x)
+        seen.add(x)
+    return d
+
+
+def observe(w, got, is_set, is_tree):
+    """No faults: len, truth, extremes and every way of iterating agree with the contents. -> (clause, text) | None"""
+    t = w.t
+    keys = [x if is_set else x[0] for x in got]
+    if len(t) != len(got):
+        return "len", "len() is %d, the container holds %d keys" % (len(t), len(got))
+    if bool(t) != bool(got):
+        return "len", "bool() is %r, the container holds %d keys" % (bool(t), len(got))
+    if got:
+        mm = (lab(t.minKey()), lab(t.maxKey()))
+        if mm != (keys[0], keys[-1]):
+            return "minmax", "minKey(), maxKey() are %r, the keys are %r" % (mm, keys)
+    views = [("iter", [lab(k) for k in t]), ("keys", [lab(k) for k in t.keys()])]
+    if not is_set:
+        views.append(("iterkeys", [lab(k) for k in t.iterkeys()]))
+    for name, v in views:
+        if v != keys:
+            return "iteration", "%s yields %r, the keys are %r" % (name, v, keys)
+    if not is_set:
+        vals = [x[1] for x in got]
+        for name, v in (("values", [lab(x) for x in t.values()]), ("itervalues", [lab(x) for x in t.itervalues()])):
+            if v != vals:
+                return "iteration", "%s yields %r, the values are %r" % (name, v, vals)
+        it = [(lab(k), lab(v)) for k, v in t.iteritems()]
+        if it != got:
+            return "iteration", "iteritems yields %r, the items are %r" % (it, got)
     return None
 
 
-def run_config(s, fam, kind, impl, sizes, seen_cases, samples):
+def followup(w, got, before, is_set, is_tree):
+    """No faults.  (1) every stored key is found, a fresh largest key can be stored and removed again;
+    (2) what the call removed is stored again, what it added is removed: the contents are the previous ones;
+    (3) every key is removed, one at a time, the tree checked after each step.  -> (clause, text) | None"""
+    t = w.t
+    try:
+        for x in got:
+            k = x if is_set else x[0]
+            if w.pk[k] not in t or (not is_set and lab(t[w.pk[k]]) != x[1]):
+                return "followup", "stored key %r not found" % (k,)
+        nk = w.pk[1001]
+        if nk in t:
+            return "followup", "absent key found"
+        t.add(nk) if is_set else t.__setitem__(nk, w.vals[2])
+        if len(t) != len(got) + 1 or w.contents()[-1] != (1001 if is_set else (1001, lab(w.vals[2]))):
+            return "followup", "after storing a fresh largest key: contents %r" % (w.contents(),)
+        t.remove(nk) if is_set else t.__delitem__(nk)
+        if w.contents() != got:
+            return "followup", "after insert+delete contents %r, expected %r" % (w.contents(), got)
+        if is_tree:
+            t._check()
+    except Exception as e:
+        return "followup", "%s: %s" % (type(e).__name__, e)
+    try:
+        gk = set(x if is_set else x[0] for x in got)
+        bk = set(x if is_set else x[0] for x in before)
+        for k in sorted(bk - gk):
+            r = t.add(w.uk[k]) if is_set else t.__setitem__(w.uk[k], w.vals[0])
+            if is_set and not r:
+                return "reinsert", "add(%r) reports the removed key as present" % (k,)
+        for k in sorted(gk - bk):
+            t.remove(w.pk[k]) if is_set else t.__delitem__(w.pk[k])
+        if not is_set:
+            for k, v in before:
+                if lab(t[w.pk[k]]) != v:
+                    t[w.pk[k]] = w.vals[0]
+        if w.contents() != before:
+            return "reinsert", "after storing the removed keys again: contents %r, expected %r" % (w.contents(), before)
+        if is_tree:
+            t._check()
+    except Exception as e:
+        return "reinsert", "%s: %s" % (type(e).__name__, e)
+    try:
+        left = [x if is_set else x[0] for x in before]
+        order = left[::-1] if len(left) % 2 else list(left)
+        for i, k in enumerate(order):
+            if i % 2:
+                t.remove(w.pk[k]) if is_set else t.pop(w.pk[k])
+            else:
+                t.discard(w.pk[k]) if is_set else t.__delitem__(w.pk[k])
+            left.remove(k)
+            if is_tree:
+                t._check()
+            if len(t) != len(left) or [lab(x) for x in t.keys()] != left:
+                return "workload", "after removing %r: keys %r, expected %r" % (order[:i + 1], [lab(x) for x in t.keys()], left)
+        if is_tree:
+            H.walk(t, is_set)
+    except (Exception, H.Damage) as e:
+        return "workload", "removing every key, one at a time: %s: %s" % (type(e).__name__, e)
+    return None
+
+
+def new_ctx(fam, kind, impl, sizes):
     is_set = kind in ("Set", "TreeSet")
     is_tree = kind in ("BTree", "TreeSet")
-    py = impl == "py"
     leaf, internal = sizes if is_tree else (None, None)
-    cls = H.get_class(fam, kind, impl, leaf, internal)
-    mod = H.family_module(fam)
-    obj_values = (not is_set) and fam[1] == "O"
-    tag = "%s%s%s" % (fam, kind, "Py" if py else "")
-    quick = H.tier() == "quick"
-    reported = {}
+    return {"fam": fam, "kind": kind, "impl": impl, "sizes": sizes, "is_set": is_set, "is_tree": is_tree,
+            "py": impl == "py", "leaf": leaf, "internal": internal,
+            "cls": H.get_class(fam, kind, impl, leaf, internal), "mod": H.family_module(fam),
+            "obj_values": (not is_set) and fam[1] == "O",
+            "tag": "%s%s%s" % (fam, kind, "Py" if impl == "py" else "")}
 
-    def fail(clause, op, desc, repro):
-        key = "cmpfault:%s:%s:%s:%s" % (impl, kind, clause, op[1])
-        reported[key] = reported.get(key, 0) + 1
-        if reported[key] > 2:               # two witnesses per contract and configuration
-            return
-        s.failures.append(Failure(key=key, desc="%s sizes=%s shape=%s %s, %s raised by comparison #%d: %s" % (
-            tag, sizes, repro["shape"], op[1:], repro["exc"], repro["n"], desc), repro=repro))
 
-    for rname, recipe in recipes(quick):
-        if not is_tree and len(recipe) > 6:
+def eval_case(cx, rname, recipe, d0, op, exc, fault, n, fails):
+    """One case.  -> injected?  Failures are appended to `fails` as (clause, text, repro)."""
+    is_set, is_tree, py, cls = cx["is_set"], cx["is_tree"], cx["py"], cx["cls"]
+    fname, methods, sticky = fault
+    gc.freeze()        # what exists now is not garbage of this case: keeps gc.collect() cheap
+    w = World(cls, is_set, recipe, cx["obj_values"])
+    prepare(w, op, cls)
+    valmap = {("V", i): lab(w.vals[i]) for i in range(3)}
+    norm = lambda d: sorted(d) if is_set else sorted((k, valmap[v]) for k, v in d.items())
+    before = norm(d0)
+    after = norm(completed(op, d0, is_set))
+    rc1, sl1 = w.refs(), w.slots()
+    C.count, C.fail_at, C.exc, C.raised, C.methods, C.sticky = 0, n, exc, [], methods, sticky
+    C.at_raise, C.probe = None, (lambda: len(w.t))
+    mod = cx["mod"]
+    how, res, stray = armed_call(lambda: run_op(w, op, mod, py))
+    # ---- disarmed from here on
+    C.probe = None
+    raised, C.raised = C.raised, []
+    late = C.at_raise is not None and C.at_raise != len(before)
+    ename = exc.__name__
+    repro = {"family": cx["fam"], "kind": cx["kind"], "impl": cx["impl"], "sizes": list(cx["sizes"]), "shape": rname,
+             "build": recipe, "op": [repr(x) for x in op], "fault": fname, "n": n, "exc": ename}
+    if not raised:             # fewer than n such comparisons: this operation is done
+        del res
+        return False
+
+    def fail(clause, text):
+        fails.append((clause, text, repro))
+
+    # -- the exception reaches the caller
+    if how == "ret":
+        if stray is not None:
+            fail("pending-" + ename, "the call returned normally and left an exception set, which surfaced afterwards as %s: %s"
+                 % (type(stray).__name__, str(stray)[:120]))
+        else:
+            fail("swallowed-" + ename, "the call returned normally")
+    elif isinstance(res, SystemError) and "exception set" in str(res):
+        fail("pending-" + ename, "the call returned a result and left the exception set: %s: %s" % (type(res).__name__, res))
+    elif not any(res is e for e in raised):
+        fail("replaced-" + ename, "the caller saw %r" % (res,))
+    for e in raised + [res if how == "exc" else None, stray]:
+        if isinstance(e, BaseException):
+            e.__traceback__ = None        # frames hold keys
+            e.__context__ = e.__cause__ = None
+    del res, stray, raised, e
+    # -- sound, no key twice, contents previous or completed
+    ok = True
+    got = None
+    try:
+        seen = census(w.t, is_set) if is_tree else [x if is_set else x[0] for x in w.contents()]
+        if dups(seen):
+            ok = False
+            fail("duplicate-key", "key(s) %r stored twice: the structure holds %r" % (dups(seen), seen))
+    except Exception as e:
+        ok = False
+        fail("inspect-error", "inspecting the container raised %s: %s" % (type(e).__name__, e))
+    if ok:
+        dmg = "damage" if late else "damage-early"
+        try:
+            if is_tree:
+                got, _, _ = H.walk(w.t, is_set, cx["leaf"], cx["internal"])
+                got = [lab(k) for k in got] if is_set else [(lab(k), lab(v)) for k, v in got]
+                w.t._check()
+            else:
+                got = w.contents()
+                ks = [x if is_set else x[0] for x in got]
+                if any(not a < b for a, b in zip(ks, ks[1:])):
+                    raise H.Damage("leaf keys not strictly increasing: %r" % (ks,))
+            it = w.contents()
+            if dups([x if is_set else x[0] for x in it]):
+                ok = False
+                fail("duplicate-key", "iteration yields %r, the structure holds %r" % (it, got))
+            elif got != it:
+                raise H.Damage("iteration yields %r, the structure holds %r" % (it, got))
+        except H.Damage as e:
+            ok = False
+            if late and is_tree and str(e).startswith("leaf chain ("):
+                try:
+                    if not stale_chain_only(w.t):
+                        dmg = "damage-chain"
+                except Exception:
+                    dmg = "damage-chain"
+            elif late:
+                dmg = "damage-structure"
+            fail(dmg, str(e))
+        except AssertionError as e:
+            ok = False
+            fail("checker" if late else "checker-early", "_check() rejected the container: %s" % (e,))
+        except Exception as e:
+            ok = False
+            fail("inspect-error", "inspecting the container raised %s: %s" % (type(e).__name__, e))
+    if ok and is_tree:
+        try:
+            import BTrees.check
+            BTrees.check.check(w.t)
+        except AssertionError as e:
+            ok = False
+            fail("btrees-check", "BTrees.check.check() rejected the container: %s" % (str(e)[:300],))
+        except Exception as e:
+            ok = False
+            fail("inspect-error", "BTrees.check.check() raised %s: %s" % (type(e).__name__, e))
+    if ok and got != before and got != after:
+        sb, sa, sg = set(before), set(after), set(got)
+        if not (op[1] in MULTI and sb & sa <= sg <= sb | sa):
+            ok = False
+            fail("contents", "contents %r, previous %r, completed %r" % (got, before, after))
+    if ok:
+        try:
+            bad = observe(w, got, is_set, is_tree)
+        except Exception as e:
+            bad = ("observe-error", "%s: %s" % (type(e).__name__, e))
+        if bad:
+            ok = False
+            fail(*bad)
+    # -- slot ownership right after the failed call.  C only: in pure Python the
+    #    interpreter does the counting (and e.g. _data[0].key is a harmless extra holder)
+    if ok and not py:
+        sl2 = w.slots()
+        gc.collect()       # the walker's closures are cyclic garbage, not a leak
+        for clause, sel in (("refcount", lambda a, b: a or b), ("arg-leak", lambda a, b: not (a or b))):
+            bad = [(repr(o), x - (r + b - a)) for o, x, r, a, b in zip(w.tracked, w.refs(), rc1, sl1, sl2)
+                   if x != r + b - a and sel(a, b)]
+            if bad:
+                ok = False
+                fail(clause, "reference count differs from slots held, (%s, surplus): %r" % (
+                    "stored object" if clause == "refcount" else "never stored argument", bad[:4]))
+    # -- later operations behave normally
+    if ok:
+        bad = followup(w, got, before, is_set, is_tree)
+        if bad:
+            ok = False
+            fail(bad[0], "follow-up workload: " + bad[1])
+    # -- nothing leaked or released twice: destroy everything
+    if ok:
+        w.t = w.u = None
+        w.held = []
+        gc.collect()
+        bad = [(repr(o), x - e) for o, x, e in zip(w.tracked, w.refs(), w.base0) if x != e]
+        wr = [weakref.ref(o) for o in w.tracked]
+        w.tracked, w.sk, w.uk, w.pk, w.vals = [], {}, {}, {}, []
+        alive = [repr(r()) for r in wr if r() is not None]
+        # nodes created by this case (everything older is frozen) that outlive the containers
+        alive += ["%s at 0x%x" % (type(o).__name__, id(o)) for o in gc.get_objects() if H.is_node(o)]
+        if bad or alive:
+            fail("leak-after-destroy", "after destroying the containers: surplus references %r, "
+                 "objects still alive %r" % (bad[:4], alive[:4]))
+    return True
+
+
+def job(j):
+    """One (scenario, configuration, recipe): every operation x exception class x fault x n, in a forked child
+    (a crash or an endless loop of the code under test is the outcome of the case that was running)."""
+    scenario, fam, kind, impl, sizes, rname, recipe = j
+    gc.disable()               # collections are made explicitly, at fixed points of a case
+    cx = new_ctx(fam, kind, impl, sizes)
+    is_set, is_tree = cx["is_set"], cx["is_tree"]
+    probe = World(cx["cls"], is_set, recipe, cx["obj_values"])
+    d0 = {lab(k): (None if is_set else ("V", 0)) for k in probe.t.keys()}
+    shape = repr(H.shape(probe.t, is_set)) if is_tree else str(len(d0))
+    ops = delete_operations(is_set, d0) if scenario == "delete" else operations(is_set, is_tree, d0)
+    cases = [(op, exc, fault) for op in ops for exc in (Boom, TypeError) for fault in FAULTS]
+
+    def one(case, note):
+        op, exc, fault = case
+        fails, n, injected = [], 0, 0
+        while n <= 400:
+            n += 1
+            note("%s n=%d" % (fault[0], n))
+            if not eval_case(cx, rname, recipe, d0, op, exc, fault, n, fails):
+                break
+            injected += 1
+            if len(fails) > 40:         # plenty of witnesses for this (operation, fault)
+                break
+        return {"evals": n, "injected": injected, "fails": fails}
+
+    res = H.guarded_cases(one, cases, timeout=30, max_restarts=12)
+    out = {"evals": 0, "seen": {}, "fails": [], "sample": None}
+    for (op, exc, fault), r in zip(cases, res):
+        if r[0] == "skipped":
             continue
-        probe = World(cls, is_set, recipe, obj_values)
-        d0 = {lab(k): (None if is_set else ("V", 0)) for k in probe.t.keys()}
-        shape = H.shape(probe.t, is_set) if is_tree else len(d0)
-        for op in operations(is_set, is_tree, d0):
-            for exc in (Boom, TypeError):
-                n = 0
-                while True:
-                    n += 1
-                    gc.freeze()        # what exists now is not garbage of this case: keeps gc.collect() cheap
-                    w = World(cls, is_set, recipe, obj_values)
-                    prepare(w, op, cls)
-                    valmap = {("V", i): lab(w.vals[i]) for i in range(3)}
-                    norm = lambda d: sorted(d) if is_set else sorted((k, valmap[v]) for k, v in d.items())
-                    before = norm(d0)
-                    after = norm(completed(op, d0, is_set))
-                    rc1, sl1 = w.refs(), w.slots()
-                    Ctl.count, Ctl.fail_at, Ctl.exc, Ctl.raised = 0, n, exc, None
-                    caught = None
-                    try:
-                        res = run_op(w, op, mod, py)
-                        del res
-                    except BaseException as e:
-                        caught = e
-                    finally:
-                        Ctl.fail_at = None
-                    injected, raised = Ctl.count >= n, Ctl.raised
-                    Ctl.raised = None
-                    s.evaluations += 1
-                    repro = {"family": fam, "kind": kind, "impl": impl, "sizes": list(sizes), "shape": rname,
-                             "build": recipe, "op": list(map(repr, op)), "n": n, "exc": exc.__name__}
-                    if not injected:       # fewer than n comparisons: this operation is done
-                        break
-                    seen_cases.add((tag, sizes, repr(shape), op, n, exc.__name__))
-                    if len(samples) < 2 and n == 2:
-                        samples.append(repro)
-                    # -- the exception reaches the caller
-                    if caught is None:
-                        fail("swallowed-" + exc.__name__, op, "the call returned normally", repro)
-                    elif caught is not raised:
-                        fail("replaced-" + exc.__name__, op, "the caller saw %r" % (caught,), repro)
-                    caught = raised = None            # drops the traceback (frames hold keys)
-                    # -- sound, contents previous or completed
-                    ok = True
-                    try:
-                        if is_tree:
-                            got, _, _ = H.walk(w.t, is_set, leaf, internal)
-                            got = [lab(k) for k in got] if is_set else [(lab(k), lab(v)) for k, v in got]
-                            w.t._check()
-                        else:
-                            got = w.contents()
-                            ks = [x if is_set else x[0] for x in got]
-                            if any(not a < b for a, b in zip(ks, ks[1:])):
-                                raise H.Damage("leaf keys not strictly increasing: %r" % (ks,))
-                        if got != w.contents():
-                            raise H.Damage("iteration yields %r, the structure holds %r" % (w.contents(), got))
-                    except H.Damage as e:
-                        ok = False
-                        fail("damage", op, str(e), repro)
-                    except AssertionError as e:
-                        ok = False
-                        fail("checker", op, "_check() rejected the container: %s" % (e,), repro)
-                    except Exception as e:
-                        ok = False
-                        fail("inspect-error", op, "inspecting the container raised %s: %s" % (type(e).__name__, e), repro)
-                    if ok and got != before and got != after:
-                        multi = op[1] in ("update", "supdate", "ior", "iand", "isub", "ixor")
-                        sb, sa, sg = set(before), set(after), set(got)
-                        if not (multi and sb & sa <= sg <= sb | sa):
-                            ok = False
-                            fail("contents", op, "contents %r, previous %r, completed %r" % (got, before, after), repro)
-                    # -- slot ownership right after the failed call.  C only: in pure Python the
-                    #    interpreter does the counting (and e.g. _data[0].key is a harmless extra holder)
-                    if ok and not py:
-                        sl2 = w.slots()
-                        gc.collect()       # the walker's closures are cyclic garbage, not a leak
-                        for clause, sel in (("refcount", lambda a, b: a or b), ("arg-leak", lambda a, b: not (a or b))):
-                            bad = [(repr(o), x - (r + b - a)) for o, x, r, a, b in zip(w.tracked, w.refs(), rc1, sl1, sl2)
-                                   if x != r + b - a and sel(a, b)]
-                            if bad:
-                                ok = False
-                                fail(clause, op, "reference count differs from slots held, (%s, surplus): %r" % (
-                                    "stored object" if clause == "refcount" else "never stored argument", bad[:4]), repro)
-                    # -- later operations behave normally
-                    if ok:
-                        msg = followup(w, got, is_set, is_tree)
-                        if msg:
-                            ok = False
-                            fail("followup", op, "follow-up workload: " + msg, repro)
-                    # -- nothing leaked or released twice: destroy everything
-                    if ok:
-                        w.t = w.u = None
-                        w.held = []
-                        gc.collect()
-                        bad = [(repr(o), x - e) for o, x, e in zip(w.tracked, w.refs(), w.base0) if x != e]
-                        wr = [weakref.ref(o) for o in w.tracked]
-                        w.tracked, w.sk, w.uk, w.pk, w.vals = [], {}, {}, {}, []
-                        alive = [repr(r()) for r in wr if r() is not None]
-                        if bad or alive:
-                            fail("leak-after-destroy", op, "after destroying the containers: surplus references %r, "
-                                 "objects still alive %r" % (bad[:4], alive[:4]), repro)
-                    if n > 400:
-                        break
+        base = {"family": fam, "kind": kind, "impl": impl, "sizes": list(sizes), "shape": rname, "build": recipe,
+                "op": [repr(x) for x in op], "fault": fault[0], "exc": exc.__name__}
+        if r[0] == "crash":
+            out["evals"] += 1
+            clause = "hang" if r[1] == 14 else "crash"
+            out["fails"].append((op[1], clause, "the process %s during the call (%s)" % (
+                "did not come back within 30 s" if r[1] == 14 else "died with signal %d" % r[1], r[2]), dict(base, at=r[2])))
+            continue
+        r = r[1]
+        out["evals"] += r["evals"]
+        if r["injected"]:
+            out["seen"][(cx["tag"], sizes, shape, op, exc.__name__, fault[0])] = r["injected"]
+            if out["sample"] is None and r["injected"] >= 2 and fault[0] == "eq":
+                out["sample"] = dict(base, n=2)
+        out["fails"] += [(op[1], c, t, rp) for c, t, rp in r["fails"]]
+    return j, out
 
 
 def main():
@@ -396,29 +798,62 @@ def main():
     a = ap.parse_args()
     quick = H.tier() == "quick"
     sizes = [(2, 2), (3, 2)] if quick else [(2, 2), (3, 2), (2, 3), (4, 3)]
-    s = Standin(name="cmpfault_rt",
-                bound="object-keyed families; per (family, kind in BTree/TreeSet/Bucket/Set, implementation C/Python, node sizes "
-                      "%s): %d build recipes (ascending 0..%d keys, descending, front-/middle-thinned), every operation of the "
-                      "kinds lookup, insert, replace, delete, range search, set algebra (functions, operators, in-place), "
-                      "conflict merge on present/absent/extreme probe keys, every n = 1.. until the call needs < n comparisons, "
-                      "exception class in {private Exception, TypeError}" % (sizes, len(recipes(quick)), 8 if quick else 14),
-                rule="case = (container shape, operation, n, exception class) on a fresh container with all five clauses "
-                     "evaluated; distinct non-trivial = distinct such tuples in which the n-th comparison really was reached and raised",
-                exhaustive=True,
-                functions=["_BTree_get", "_BTree_set", "_bucket_set", "_bucket_get", "BTree_rangeSearch", "BTree_findRangeEnd",
-                           "Bucket_findRangeEnd", "bucket_merge", "set_operation", "_Set_update", "set_i*/TreeSet_i*",
-                           "_Tree._set/_del/_search", "_BucketBase._search/_range", "_set_operation", "_p_resolveConflict"])
-    seen, samples = set(), []
-    gc.disable()               # collections are made explicitly, at fixed points of a case
+    dsizes = [(2, 3), (3, 2)] if quick else [(2, 3), (3, 2), (2, 2), (3, 3)]
+    import BTrees.check         # (imports every family: once, before the workers are forked)
+    jobs, dshapes, dfeats = [], 0, 0
     for fam in H.fams():
         if fam[0] != "O":
             continue
         for kind in ("BTree", "TreeSet", "Bucket", "Set"):
+            tree = kind in ("BTree", "TreeSet")
             for impl in ("c", "py"):
-                for sz in (sizes if kind in ("BTree", "TreeSet") else [(None, None)]):
-                    run_config(s, fam, kind, impl, sz, seen, samples)
-    s.distinct_nontrivial = len(seen)
-    s.samples = samples
+                for sz in (sizes if tree else [(None, None)]):
+                    for rname, recipe in recipes(quick):
+                        if tree or len(recipe) <= 6:
+                            jobs.append(("general", fam, kind, impl, sz, rname, recipe))
+                for sz in (dsizes if tree else []):
+                    rs, nfeat = delete_recipes(H.get_class(fam, kind, impl, *sz), kind == "TreeSet", quick)
+                    dshapes, dfeats = dshapes + len(rs), dfeats + nfeat
+                    for rname, recipe in rs:
+                        jobs.append(("delete", fam, kind, impl, sz, rname, recipe))
+    s = Standin(name="cmpfault_rt",
+                bound="object-keyed families; faults: %s (n-th comparison of any kind raises once; from the n-th call of one "
+                      "method on every call of it raises while the others answer; from the n-th comparison on all raise), every "
+                      "n = 1.. until the call needs < n such comparisons, exception class in {private Exception, TypeError}. "
+                      "general: per (family, kind in BTree/TreeSet/Bucket/Set, implementation C/Python, node sizes %s): %d build "
+                      "recipes (ascending 0..%d keys, descending, front-/middle-thinned), every operation of the kinds lookup, "
+                      "insert, replace, delete, range search, set algebra (functions, operators, in-place), conflict merge on "
+                      "present/absent/extreme probe keys. delete: per (family, BTree/TreeSet, implementation, node sizes %s): "
+                      "%d measured tree shapes of 2 and 3 levels (fills of 3..12 keys thinned by <= 2 deletions; greedy cover of "
+                      "%d (height, one-key / fuller leaf, position of the leaf in its parent, position of the parent) features), "
+                      "EVERY key x del / pop / pop-with-default / popitem resp. remove / discard / -= / pop()" % (
+                          ", ".join(f[0] for f in FAULTS), sizes, len(recipes(quick)), 8 if quick else 14, dsizes, dshapes, dfeats),
+                rule="case = (container shape, operation, fault, n, exception class) on a fresh container with all clauses "
+                     "evaluated; distinct non-trivial = distinct such tuples in which the n-th counted comparison really was "
+                     "reached and raised",
+                exhaustive=True,
+                functions=["_BTree_get", "_BTree_set", "_bucket_set", "_bucket_get", "BTree_rangeSearch", "BTree_findRangeEnd",
+                           "Bucket_findRangeEnd", "bucket_merge", "set_operation", "_Set_update", "set_i*/TreeSet_i*",
+                           "BTree_pop", "BTree_popitem", "TreeSet_pop", "BTree_deleteNextBucket", "Bucket_deleteNextBucket",
+                           "_Tree._set/_del/_search", "_BucketBase._search/_range", "_set_operation", "_p_resolveConflict"])
+    seen, reported = {}, {}
+    for j, out in H.run_parallel(job, jobs):
+        scenario, fam, kind, impl, sz = j[:5]
+        s.evaluations += out["evals"]
+        seen.update(out["seen"])
+        if out["sample"] and len(s.samples) < 2:
+            s.samples.append(out["sample"])
+        tag = "%s%s%s" % (fam, kind, "Py" if impl == "py" else "")
+        for opname, clause, text, repro in out["fails"]:
+            key = "cmpfault:%s:%s:%s:%s" % (impl, kind, clause, opname)
+            cfg = (key, scenario, sz)
+            reported[cfg] = reported.get(cfg, 0) + 1
+            if reported[cfg] > 2 or sum(1 for f in s.failures if f.key == key) >= 6:
+                continue                    # two witnesses per contract and configuration
+            s.failures.append(Failure(key=key, desc="%s sizes=%s shape=%s %s, fault %s(%s) n=%s: %s" % (
+                tag, sz, repro["shape"], repro["op"][1:], repro["fault"], repro["exc"], repro.get("n", repro.get("at")), text),
+                repro=repro))
+    s.distinct_nontrivial = sum(seen.values())
     write_standin(a.out, s)
 
 
